@@ -7,6 +7,7 @@ CONSTANTS
  MaxRetry = 10
  Quiet = FALSE
  ExtSetUp = TRUE
+ WithLeave = FALSE
  KF_OpenAfterClose = FALSE
  KF_GuardOnVisibleOnly = FALSE
  KF_SurvivorsOnly = FALSE
